@@ -32,6 +32,9 @@ SPECIAL = [
     ("unclosed_block_at_line_start", "CREATE TABLE a (id int);\n/* never closed\nCREATE TABLE b (id int);\n", {}),
     ("ends_inside_block", "CREATE TABLE a (id int); -- c\n/*\n still open", {}),
     ("trailing_set_no_newline", "CREATE TABLE a (id int);\nSET x = 1;\nSET y = 2;", {}),
+    ("pk_clause_and_inline_keys", "CREATE TABLE t (a int PRIMARY KEY, b int PRIMARY KEY, c int PRIMARY KEY, dd int, ee int PRIMARY KEY, PRIMARY KEY (dd));\n", {}),
+    ("many_table_options", "CREATE TABLE t (a int) ENGINE=InnoDB AUTO_INCREMENT=5 DEFAULT CHARSET=utf8 COMMENT='x' ROW_FORMAT=DYNAMIC KEY_BLOCK_SIZE=8;\n", {}),
+    ("many_uniques", "CREATE TABLE t (a int UNIQUE, b int UNIQUE, c int, d int, UNIQUE (c), UNIQUE (d), UNIQUE (a, b), CONSTRAINT u1 UNIQUE (c, d));\n", {}),
     ("trailing_set", "CREATE TABLE a (id int);\nSET x = 1;", {}),
     ("set_then_table", "SET y = 2;\nCREATE TABLE a (id int);\n", {}),
     ("pending_unbalanced", "CREATE TABLE a (id int,\n", {}),
@@ -186,6 +189,16 @@ def run(tier, seed):
 
     # ---- 4. other processes / hash seeds ----------------------------------------------------------------
     jobs2 = []
+    # statements of the TableFold generator (keys / uniques / references in every combination): set / dict iteration order must not show
+    from .. import tf_check as TF
+    from .. import tablefold as TT
+    gtf = TF.mc(TF.consts(WithHist="TRUE", TypeForms="{}", Opts=TF.optset(("pk", "pk"), ("unique", "u"), ("ref", "r1")), MaxOpts=1, MaxCols=3, ItemKinds=TF.ALLITEMS,
+                          ItemCols=TF.IC4, MaxItems=2, Refs='{"r2"}'), "tablefold statements for the hash-seed test")
+    gsel = gtf.beh if tier == "thorough" else rnd.sample(gtf.beh, min(len(gtf.beh), 400))
+    for b in gsel:
+        jobs2.append((TT.render(b["hist"], seed) + "\n", {}, {"json_dump": True}))
+    states += gtf.distinct
+    trans += gtf.generated
     for _, t, c in inputs:
         jobs2.append((t, c, {"json_dump": True}))
         jobs2.append((t, c, {"group_by_type": True, "json_dump": True, "output_mode": "snowflake"}))
